@@ -101,5 +101,32 @@ pub fn c03_struct_forms<S: Src>(_s: &mut S) {
     check("ScriptNOfK", ScriptNOfK::new(1, &ns).to_bytes(), arr(Some(3), vec![uint(1), ns_bytes.clone()]));
     check("TimelockStart", TimelockStart::new_timelockstart(&bn(5000)).to_bytes(), arr(Some(4), vec![uint(5000)]));
     check("TimelockExpiry", TimelockExpiry::new_timelockexpiry(&bn(6000)).to_bytes(), arr(Some(5), vec![uint(6000)]));
+    // transaction outputs: legacy_transaction_output = [address, amount, ? datum_hash]; post_alonzo = {0: address, 1: value, ? 2: datum_option, ? 3: script_ref}
+    let addr = BaseAddress::new(0, &cred, &scred).to_address();
+    let val = Value::new(&bn(1_500_000));
+    let map = |kv: Vec<(u64, Vec<u8>)>| { let mut v = head(5, kv.len() as u64); for (k, x) in kv { v.extend(uint(k)); v.extend(x); } v };
+    let wrapped = |inner: &[u8]| { let mut v = vec![0xd8, 0x18]; v.extend(bytes(inner)); v };
+    let out = TransactionOutput::new(&addr, &val);
+    check("TransactionOutput (legacy)", out.to_bytes(), arr(None, vec![bytes(&addr.to_bytes()), val.to_bytes()]));
+    let mut out_h = out.clone();
+    out_h.set_data_hash(&DataHash::from([7u8; 32]));
+    check("TransactionOutput (legacy, datum hash)", out_h.to_bytes(), arr(None, vec![bytes(&addr.to_bytes()), val.to_bytes(), bytes(&[7u8; 32])]));
+    let datum = PlutusData::new_integer(&BigInt::from_str("7").unwrap());
+    let mut out_d = out.clone();
+    out_d.set_plutus_data(&datum);
+    check("TransactionOutput (inline datum)", out_d.to_bytes(), map(vec![(0, bytes(&addr.to_bytes())), (1, val.to_bytes()), (2, arr(Some(1), vec![wrapped(&datum.to_bytes())]))]));
+    let sref = ScriptRef::new_native_script(&NativeScript::new_script_pubkey(&sp));
+    let mut out_s = out.clone();
+    out_s.set_script_ref(&sref);
+    check("TransactionOutput (script ref)", out_s.to_bytes(), map(vec![(0, bytes(&addr.to_bytes())), (1, val.to_bytes()), (3, sref.to_bytes())]));
+    let mut out_hs = out_h.clone();
+    out_hs.set_script_ref(&sref);
+    check("TransactionOutput (datum hash, script ref)", out_hs.to_bytes(),
+          map(vec![(0, bytes(&addr.to_bytes())), (1, val.to_bytes()), (2, arr(Some(0), vec![bytes(&[7u8; 32])])), (3, sref.to_bytes())]));
+    let mut out_ds = out_d.clone();
+    out_ds.set_script_ref(&sref);
+    check("TransactionOutput (inline datum, script ref)", out_ds.to_bytes(),
+          map(vec![(0, bytes(&addr.to_bytes())), (1, val.to_bytes()), (2, arr(Some(1), vec![wrapped(&datum.to_bytes())])), (3, sref.to_bytes())]));
+    check("ScriptRef (native)", sref.to_bytes(), wrapped(&arr(Some(0), vec![NativeScript::new_script_pubkey(&sp).to_bytes()])));
     assert!(failures.is_empty(), "{} struct-level forms deviate from the CDDL; first: {}", failures.len(), failures[0]);
 }
